@@ -452,7 +452,7 @@ func startProc(exe string, args []string, env []string) (*proc, error) {
 
 // TaskTimeout: real-time limit for one task (a path replay plus one expansion
 // takes milliseconds to seconds; only code that hangs or busy-loops gets here).
-var TaskTimeout = 10 * time.Minute
+var TaskTimeout = 4 * time.Minute
 
 func (p *proc) do(t Task) (Result, error) {
 	type rr struct {
